@@ -151,7 +151,9 @@ def plan_models(doc: dict, man: dict, args: dict) -> list:
         except (docs.Bottomless, RecursionError):
             continue
         for label, v, flags in insts[: per + 8]:
-            acts.append({"a": "roundtrip", "cls": cls, "value": v, "x": {"ref": ref, "label": label, "flags": flags}})
+            if "oneof_ambiguous_instance" in flags or not docs.valid(schema, v, comps):
+                continue  # not a valid instance of the schema (R-INSTANCE self-validation): never offered to the oracle
+            acts.append({"a": "roundtrip", "cls": cls, "value": v, "x": {"ref": ref, "label": label, "flags": flags, "self_validated": True}})
     return acts
 
 
@@ -289,6 +291,8 @@ def body_plan(doc: dict, man: dict, man_ep: dict, op: dict, tok: docs.Tok, rng: 
         v = {k: val for k, val in v.items() if val is not None and not isinstance(val, dict) and not (isinstance(val, list) and any(isinstance(i, (dict, list)) or i is None for i in val))}
     x["value"] = v
     x["flags"] = tok.take_flags()
+    if "oneof_ambiguous_instance" in x["flags"]:
+        return None
     return to_desc(pi, v), x
 
 
@@ -338,6 +342,8 @@ def response_plan(doc: dict, man_ep: dict, op: dict, tok: docs.Tok, rng: random.
     if v is None and not docs.nullable(schema, comps):
         return None, None
     x["flags"] = tok.take_flags()
+    if "oneof_ambiguous_instance" in x["flags"]:
+        return None, None
     if base.startswith("text/"):
         v = v if isinstance(v, str) else tok.string()
         x["expect"] = "text"
